@@ -260,6 +260,13 @@ Fixpoint write_shapes_calls (ss : list shape) (st : wstate) (w : world) : res un
 Definition run_write_shapes (has_shx : bool) (w0 : world) (ss : list shape) : res unit * world :=
   let '(r, st, w) := write_shapes_calls ss (w_new has_shx) w0 in (r, w_drop st w).
 
+(** A history ended by the bulk helper: `write_shapes(self, tail)` on a writer
+    that already received calls (the helper consumes the writer: drop follows). *)
+Definition run_history_bulk (has_shx : bool) (w0 : world) (cs : list wcall) (tail : list shape)
+  : list (res unit) * world :=
+  let '(rs, st, w) := run_calls cs (w_new has_shx) w0 in
+  let '(r, st', w') := write_shapes_calls tail st w in (rs ++ [r], w_drop st' w').
+
 Definition world0 : world := mkworld wdev_empty wdev_empty.
 Definition world_with_fault (t : dest) (k : nat) (persistent : bool) : world :=
   let d := mkwdev [] 0 0 (Some (k, persistent)) false [] in
